@@ -154,7 +154,7 @@ def run(ctx):
     naive_codes = [('five', ()), ('steane', ()), ('planar', (2, 2)), ('planar', (2, 3)), ('toric', (2, 2)),
                    ('rotatedplanar', (3, 3)), ('color666', (3,)), ('rotatedtoric', (2, 2)), ('rotatedtoric', (2, 4))]
     if not quick:
-        naive_codes += [('planar', (3, 2)), ('rotatedtoric', (4, 2)), ('planar', (2, 4))]
+        naive_codes += [('planar', (3, 2)), ('rotatedtoric', (4, 2))]
     naive_req = []
     for cs in naive_codes:
         code, n, cname = reg(cs)
@@ -190,6 +190,25 @@ def run(ctx):
                 look[(job['id'], k, 'naive')] = len(req)
                 req.append('naive %s %d %s %s' % (cname, n, '_' if mq is None else str(mq), r['syndrome']))
     out = zoo.model_parallel(ctx, 'dec', req, prefix=mat_lines)
+
+    # negative answers get a verified certificate: a stabilizer or logical l anticommuting with v (w = l with halves
+    # swapped vanishes on every stabilizer, since l commutes with all of them, but not on v)
+    neg_req, neg_look = [], {}
+    for job, res in zip(jobs, results):
+        code, n, cname = codes[job['code']]
+        for k, r in enumerate(res['results']):
+            key = (job['id'], k, 'span')
+            if key in look and out[look[key]] == '_':
+                v = np.array([int(c) for c in req[look[key]].split(' ')[-1]])
+                for l in list(code.logicals) + list(code.stabilizers):
+                    if sym_commutes(v, np.array([l]))[0]:
+                        w = np.concatenate([l[n:], l[:n]])
+                        neg_look[(job['id'], k)] = len(neg_req)
+                        neg_req.append('nospan %s %s %s' % (cname, bitstr(w), bitstr(v)))
+                        break
+    neg_out = zoo.model_parallel(ctx, 'dec', neg_req, prefix=mat_lines) if neg_req else []
+    ctx.extra['negative_answers_certified'] = sum(1 for x in neg_out if x == '1')
+    ctx.extra['negative_answers'] = sum(1 for i in look if i[2] == 'span' and out[look[i]] == '_')
 
     tables = {}
     kern = []
@@ -249,6 +268,10 @@ def run(ctx):
                 if not np.array_equal(comb, v):
                     ctx.cmp('in_span coefficients', cname, 'do not combine to v', 'combine to v')
             corrected = m_span != '_'
+            if not corrected:
+                cert = neg_out[neg_look[(job['id'], k)]] if (job['id'], k) in neg_look else 'none'
+                ctx.cmp('not_in_span_cert on a negative in_span answer', '%s %s' % (cname, bitstr(v)), cert, '1')
+                rep['not_in_span_certificate'] = cert
             if ds[0] == 'NaiveDecoder':
                 # model correspondence (same scan order => the same operator) and minimality
                 m_n = out[look[(job['id'], k, 'naive')]]
@@ -278,8 +301,9 @@ def run(ctx):
                 if len(kern) < 30 and n <= 25 and tw >= 2 and corrected and (job['id'] + k) % 11 == 0:
                     kern.append((cs, bitstr(v), m_span))
     ctx.extra['decodes'] = sum(len(j['errors']) for j in jobs)
-    ctx.notes.append('in_span is sound for positive answers (checked coefficients); negative answers are cross-checked by '
-                     'an independent elimination and by commutation with the logical operators')
+    ctx.notes.append('in_span is sound for positive answers (checked coefficients); every negative answer is certified by '
+                     'not_in_span_cert (a logical/stabilizer anticommuting with recovery xor error, c14_not_in_span_cert_sound) '
+                     'and cross-checked by an independent elimination')
     ctx.notes.append('Blossom V backend absent: NetworkX matching only')
 
     # model's basic-code matrices are the implementation's
